@@ -210,40 +210,6 @@ proof fn lemma_probe_distinct(g: nat, start: int, i: nat, j: nat)
 
 
 
-proof fn lemma_pow2_exponent(x: usize) -> (k: nat)
-    requires spec_is_pow2(x),
-    ensures k < 64, x as int == pow2(k) as int,
-{
-    let xx = x as u64;
-    assert(xx != 0 && (xx & sub(xx, 1)) == 0 ==> exists|s: u64| s < 64 && xx == (1u64 << s)) by {
-        assert(xx != 0 && (xx & sub(xx, 1)) == 0 ==> (
-            xx == 1u64<<0 || xx == 1u64<<1 || xx == 1u64<<2 || xx == 1u64<<3 || xx == 1u64<<4 || xx == 1u64<<5 || xx == 1u64<<6 || xx == 1u64<<7 ||
-            xx == 1u64<<8 || xx == 1u64<<9 || xx == 1u64<<10 || xx == 1u64<<11 || xx == 1u64<<12 || xx == 1u64<<13 || xx == 1u64<<14 || xx == 1u64<<15 ||
-            xx == 1u64<<16 || xx == 1u64<<17 || xx == 1u64<<18 || xx == 1u64<<19 || xx == 1u64<<20 || xx == 1u64<<21 || xx == 1u64<<22 || xx == 1u64<<23 ||
-            xx == 1u64<<24 || xx == 1u64<<25 || xx == 1u64<<26 || xx == 1u64<<27 || xx == 1u64<<28 || xx == 1u64<<29 || xx == 1u64<<30 || xx == 1u64<<31 ||
-            xx == 1u64<<32 || xx == 1u64<<33 || xx == 1u64<<34 || xx == 1u64<<35 || xx == 1u64<<36 || xx == 1u64<<37 || xx == 1u64<<38 || xx == 1u64<<39 ||
-            xx == 1u64<<40 || xx == 1u64<<41 || xx == 1u64<<42 || xx == 1u64<<43 || xx == 1u64<<44 || xx == 1u64<<45 || xx == 1u64<<46 || xx == 1u64<<47 ||
-            xx == 1u64<<48 || xx == 1u64<<49 || xx == 1u64<<50 || xx == 1u64<<51 || xx == 1u64<<52 || xx == 1u64<<53 || xx == 1u64<<54 || xx == 1u64<<55 ||
-            xx == 1u64<<56 || xx == 1u64<<57 || xx == 1u64<<58 || xx == 1u64<<59 || xx == 1u64<<60 || xx == 1u64<<61 || xx == 1u64<<62 || xx == 1u64<<63)) by(bit_vector);
-    }
-    assert(xx != 0 && (xx & sub(xx, 1)) == 0);
-    let s = choose|s: u64| s < 64 && xx == (1u64 << s);
-    lemma_u64_pow2_no_overflow(s as nat);
-    assert(1 * pow2(s as nat) <= u64::MAX);
-    lemma_u64_shl_is_mul(1, s);
-    s as nat
-}
-
-proof fn lemma_mask_is_mod(x: usize, mask: usize)
-    requires mask < usize::MAX, spec_is_pow2((mask + 1) as usize),
-    ensures (x & mask) as int == (x as int) % (mask as int + 1),
-{
-    let k = lemma_pow2_exponent((mask + 1) as usize);
-    lemma_u64_low_bits_mask_is_mod(x as u64, k);
-    assert(low_bits_mask(k) == pow2(k) - 1);
-    assert((x & mask) == ((x as u64) & (mask as u64)) as usize);
-}
-
 // one call of ProbeSeq::move_next (its proved contract) advances the specification position
 proof fn lemma_move_next_step(start: int, mask: usize, k: nat, pos: usize, stride: usize, pos2: usize)
     requires
